@@ -336,7 +336,7 @@ class Twist3(SMTwist):
 
         elif w is not None and base.isvector(w, 3) and base.isvector(arg,3):
             # Twist(v, w)
-            self.data = [np.r_[arg, w]]
+            self.data = [np.r_[base.getvector(arg), base.getvector(w)]]
             return
 
         raise ValueError('bad twist value')
@@ -1115,7 +1115,7 @@ class Twist2(SMTwist):
 
         elif w is not None and base.isscalar(w) and base.isvector(arg,2):
             # Twist(v, w)
-            self.data = [np.r_[arg, w]]
+            self.data = [np.r_[base.getvector(arg), base.getvector(w)]]
             return
 
         raise ValueError('bad twist value')
